@@ -492,3 +492,71 @@ twin('C05', 'c05-twin-local-names', CONTEXT,
      "        suppress = self.SUPPRESS_CONCURRENT\n        promote = self.PROMOTE_CONCURRENT\n        concurrent = []\n        for exc in self._child_failures:\n            if isinstance(exc, promote):\n                return exc, None\n            if not isinstance(exc, suppress):\n                concurrent.append(exc)",
      "        concurrent = []\n        for exc in self._child_failures:\n            if isinstance(exc, self.PROMOTE_CONCURRENT):\n                return exc, None\n            if not isinstance(exc, self.SUPPRESS_CONCURRENT):\n                concurrent.append(exc)",
      'aliases removed')
+
+# ------------------------------------------------------------------------- C01
+mutant('C01', 'c01-after-subscribe-unguarded', TIMING,
+       "        if not self:\n            self._ensure_trigger()\n        super().__subscribe__(waiter, interrupt)",
+       "        self._ensure_trigger()\n        super().__subscribe__(waiter, interrupt)",
+       'L3', 'the original defect F4: schedules into the past')
+mutant('C01', 'c01-wrapper-truthiness', TASK,
+       "                if delay is not None or at is not None:",
+       "                if delay or at:",
+       'L7', 'the original defect F12')
+mutant('C01', 'c01-sd-popitem-default', WAITQ,
+       "        return self._data.popitem(0)", "        return self._data.popitem()",
+       'L2 SD.pop', 'pops the largest key: time runs backwards')
+mutant('C01', 'c01-hq-push-always', WAITQ,
+       "        try:\n            self._data[key].append(item)\n        except KeyError:\n            self._data[key] = elements = deque()  # type: deque[V]\n            elements.append(item)\n            heappush(self._keys, key)",
+       "        try:\n            self._data[key].append(item)\n        except KeyError:\n            self._data[key] = elements = deque()  # type: deque[V]\n            elements.append(item)\n        heappush(self._keys, key)",
+       'L2 HQ.push', 'duplicate keys in the heap: KeyError on the second pop')
+mutant('C01', 'c01-hq-append-key', WAITQ,
+       "            heappush(self._keys, key)", "            self._keys.append(key)",
+       'L2 HQ', 'keys no longer form a heap')
+mutant('C01', 'c01-suspend-swapped', NOTIF,
+       "    loop.schedule(task, signal=wake_up, delay=delay, at=until)",
+       "    loop.schedule(task, signal=wake_up, delay=until, at=delay)",
+       'L5', 'date used as delay')
+mutant('C01', 'c01-schedule-key', LOOP,
+       "            self._activations.push(self.time + delay, Activation(target, signal))",
+       "            self._activations.push(delay, Activation(target, signal))",
+       'L5 Loop.schedule', 'relative delay used as absolute date')
+mutant('C01', 'c01-drain-snapshot', LOOP,
+       "            while pending:\n                activation = pending.popleft()",
+       "            for activation in list(pending):\n                pending.popleft()",
+       'L4', 'work scheduled for now runs after the clock moved on')
+mutant('C01', 'c01-clock-fast-forward', LOOP,
+       "        if signal is not None:\n            signal.scheduled = True",
+       "        if signal is not None:\n            signal.scheduled = True\n        if at is not None and not self._pending:\n            self.time = at",
+       'L1', 'a helper moves the clock')
+mutant('C01', 'c01-before-inclusive', TIMING,
+       "        return __USIM_STATE__.loop.time < self.date",
+       "        return __USIM_STATE__.loop.time <= self.date",
+       'L6 truth:Before', 'time < date true at the date itself')
+mutant('C01', 'c01-moment-passed-postpones', TIMING,
+       "        elif not self._transition:\n            yield from self._transition.__await__()\n        else:\n            yield from __HIBERNATE__",
+       "        elif not self._transition:\n            yield from self._transition.__await__()\n        else:\n            yield from postpone().__await__()",
+       'L6 await:Moment/clock-gt-date', 'a passed moment resumes at once')
+mutant('C01', 'c01-after-passed-waits', TIMING,
+       "        if self:\n            yield from postpone().__await__()\n            return True\n        self._ensure_trigger()",
+       "        if __USIM_STATE__.loop.time > self.date:\n            yield from postpone().__await__()\n            return True\n        self._ensure_trigger()",
+       None, 'time >= now schedules at the current time')
+mutant('C01', 'c01-moment-subscribe-delegates', TIMING,
+       "        if __USIM_STATE__.loop.time > self.date:\n            # the moment has passed and never comes again: never notify\n            Notification.__subscribe__(self, waiter, interrupt)\n        else:\n            self._transition.__subscribe__(waiter, interrupt)",
+       "        self._transition.__subscribe__(waiter, interrupt)",
+       'L6 subscribe:Moment/clock-gt-date', 'a passed moment fires at once')
+mutant('C01', 'c01-time-ge-builds-moment', TIMING,
+       "    def __ge__(self, other: float) -> After:\n        return After(other)",
+       "    def __ge__(self, other: float) -> After:\n        return After(other + 1)",
+       'L5 Time.__ge__', 'date changed on the way')
+mutant('C01', 'c01-interval-unguarded', TIMING,
+       "        elif remaining_delay > 0:\n            await suspend(delay=remaining_delay, until=None)\n        else:\n            await postpone()",
+       "        else:\n            await suspend(delay=remaining_delay, until=None)",
+       'L3', 'zero delay scheduled as a dated activation')
+twin('C01', 'c01-twin-key-order', LOOP,
+     "            self._activations.push(self.time + delay, Activation(target, signal))",
+     "            self._activations.push(delay + self.time, Activation(target, signal))",
+     'commuted sum')
+twin('C01', 'c01-twin-flipped-truth', TIMING,
+     "        return __USIM_STATE__.loop.time >= self.date",
+     "        return self.date <= __USIM_STATE__.loop.time",
+     'a >= b <-> b <= a')
